@@ -390,17 +390,22 @@ func runCheck(prop, tier string) int {
 	wg.Wait()
 
 	// watchdog expiries outside C09/C11: replay alone with a long watchdog
+	maxHangs, hangWatchdog, hangTimeout := 5, "180000", 6*time.Minute
+	if tier != "thorough" {
+		// the quick tier must stay quick also on an overloaded machine
+		maxHangs, hangWatchdog, hangTimeout = 2, "60000", 2*time.Minute
+	}
 	for i, h := range a.hangs {
-		if i >= 5 {
+		if i >= maxHangs {
 			break
 		}
 		rf := sim.ReplayFile{Property: prop, Engine: engineOf(cfg, h.Plan), Oracle: "infra", Signature: "hang", Seed: h.Seed, Run: h.Run, Plan: h.Plan}
 		path := filepath.Join(b.scratch, fmt.Sprintf("hang%d.json", i))
 		rb, _ := json.Marshal(rf)
 		os.WriteFile(path, rb, 0o644)
-		out, _ := runTimeout(6*time.Minute, b.scratch, append(append([]string{}, env...), "VERIF_WATCHDOG_MS=180000"), b.worker, "-replay", path, "-scratch", filepath.Join(b.scratch, "hangrep"))
+		out, _ := runTimeout(hangTimeout, b.scratch, append(append([]string{}, env...), "VERIF_WATCHDOG_MS="+hangWatchdog), b.worker, "-replay", path, "-scratch", filepath.Join(b.scratch, "hangrep"))
 		if strings.Contains(out, "\"infra\":\"hang") || strings.Contains(out, "FATAL: hang") {
-			a.infra = append(a.infra, fmt.Sprintf("run %d: %s (reproduced alone with a 180 s watchdog)", h.Run, h.Infra))
+			a.infra = append(a.infra, fmt.Sprintf("run %d: %s (reproduced alone with a longer watchdog)", h.Run, h.Infra))
 		} else {
 			a.counters["watchdog_expiry_not_reproduced"]++
 		}
